@@ -50,6 +50,8 @@ def store_family(pid, cfg, replay_args, rule, exhaustive_note, workers=8):
     rc, rep = harness_run(vh, ["store-replay", emit["out"], "@REPORT", "seed=%d" % seed()] + replay_args)
     cov = merge_cov(model, emit, rep, {"rule": rule, "exhaustive": True, "explanation": exhaustive_note,
                                        "replay_args": replay_args})
+    if pid == "C04" and "_storei" in globals():
+        cov["i_layer_StoreI_refinement"] = _storei
     if not rep["samples"]:
         cov["samples"] = [{"note": "no path sampled"}]
     finish(pid, "model_checking", cov, rep["violations"] or [],
@@ -58,7 +60,22 @@ def store_family(pid, cfg, replay_args, rule, exhaustive_note, workers=8):
            inconclusive=rep.get("inconclusive"), drift=rep.get("model_drift"))
 
 
+def storei_models():
+    """I-layer StoreI.tla refines the P-layer Store.tla (both store kinds); the original digest-only
+    de-duplication test is kept as a documented design-level counterexample."""
+    out = {}
+    for kind in ("blockstore", "storage"):
+        m = run_tlc("MCStoreI", "StoreI_%s_digestFALSE.cfg" % kind, timeout=1200)
+        tlc_must_pass(m, "StoreI.tla refinement into Store.tla (%s)" % kind)
+        out[kind] = m["distinct"]
+    orig = run_tlc("MCStoreI", "StoreI_blockstore_digestTRUE.cfg", timeout=600)
+    out["original_dedupe_counterexample"] = orig.get("violated")
+    return out
+
+
 def check_C04():
+    global _storei
+    _storei = storei_models()
     if tier() == "quick":
         store_family("C04", "Store_sem", ["depth=3", "tail=1", "cover=1", "c05=0"],
                      "every operation sequence of length <= 3 through the TLC state graph of Store.tla (32 option sets x 2 root lists x "
